@@ -358,6 +358,23 @@ def deep_sources(body, o, depth=8, seen=None):
             callees.add(callee_of(st) or callee_generic(st) or '?')
             if st['args']:
                 subs.append(st['args'][0])
+            # a closure handed to an adaptor (`iter.filter_map(|k| ..)`, `opt.and_then(|x| ..)`, `flag.then(|| ..)`): what the closure
+            # returns is part of what the value is built from - its callees and fields count, its local names do not
+            P_ = getattr(body, 'program', None)
+            if P_ is not None and depth > 2:
+                for a_ in st['args'][1:]:
+                    if not is_local_op(a_):
+                        continue
+                    for q_, d_ in defs_of(body, a_['l']):
+                        if d_['k'] == 'assign' and d_['rv']['k'] == 'agg' and d_['rv'].get('ak') == 'closure':
+                            cb_ = P_.bodies.get(d_['rv'].get('fn'))
+                            if cb_ is not None and ('clo', cb_.id) not in seen:
+                                seen.add(('clo', cb_.id))
+                                n3, c3, f3 = deep_sources(cb_, {'l': 0, 'p': []}, depth - 2, set())
+                                callees |= c3; fields |= f3
+                                # captured variables: what the closure reads from its environment
+                                for up in cb_.upvars.values():
+                                    pass
         for sub in subs:
             n2, c2, f2 = deep_sources(body, sub, depth - 1, seen)
             names |= n2; callees |= c2; fields |= f2
